@@ -63,8 +63,10 @@ RUN_BACKEND = {"atlas": "atlas", "cms_aod": "cms_r5", "cms_miniaod": "cms_r7"}
 _scratch = None
 
 FILE_CLASSES = ["one", "one_str", "one_path", "several", "dup", "two_dirs", "missing", "empty", "spacey",
-                "symlink_one", "symlinks_two_targets", "real_plus_link_elsewhere", "relative"]
-TWO_DIRS = ("two_dirs", "real_plus_link_elsewhere")
+                "symlink_one", "symlinks_two_targets", "real_plus_link_elsewhere", "relative",
+                "nested_dir", "nested_dir_first", "prefix_dirs", "same_name_two_dirs"]
+# files that do not share one directory - in any of the ways two directories can be related
+TWO_DIRS = ("two_dirs", "real_plus_link_elsewhere", "nested_dir", "nested_dir_first", "prefix_dirs", "same_name_two_dirs")
 OUTDIR_KINDS = ["given", "none", "missing_dir"]
 IMAGE_SOURCES = ["dataset_default", "dataset_custom", "md_one", "md_two", "md_first_in_chain", "md_aba", "md_same_twice", "md_registry_port"]
 CHUNK_POOL = [["stdout", "building\n"], ["stderr", "warning: something\n"], ["stdout", ""], ["stdout", "line1\nline2\nline3\n"],
@@ -192,7 +194,8 @@ def make_case(prop, tier, seed, i):
         b = rng.choice(BACKENDS)
         fc = weighted(rng, [("one", 4), ("several", 4), ("one_str", 1), ("one_path", 1), ("dup", 1), ("two_dirs", 1),
                             ("missing", 1), ("empty", 1), ("spacey", 1), ("symlink_one", 1), ("symlinks_two_targets", 1),
-                            ("real_plus_link_elsewhere", 1), ("relative", 1)])
+                            ("real_plus_link_elsewhere", 1), ("relative", 1), ("nested_dir", 1), ("nested_dir_first", 1),
+                            ("prefix_dirs", 1), ("same_name_two_dirs", 1)])
         im = rng.choice(IMAGE_SOURCES)
         ok = weighted(rng, [("given", 6), ("none", 2), ("missing_dir", 1)])
         nch = rng.randrange(0, 9)
@@ -296,6 +299,23 @@ def _materialise_files(base, tag, fc):
         return [f, f], [f, f]
     if fc == "two_dirs":
         fs = [mk(d1, "a.root"), mk(d2, "b.root")]
+        return fs, fs
+    if fc in ("nested_dir", "nested_dir_first"):
+        # the second directory is a sub-directory of the first (at depth two), or the other way round
+        sub = os.path.join(d1, "run2", "part1")
+        os.makedirs(sub, exist_ok=True)
+        fs = [mk(d1, "a.root"), mk(sub, "b.root")]
+        if fc == "nested_dir_first":
+            fs.reverse()
+        return fs, fs
+    if fc == "prefix_dirs":
+        # two sibling directories, the name of one a prefix of the other's
+        dp = d1 + "2"
+        os.makedirs(dp, exist_ok=True)
+        fs = [mk(d1, "a.root"), mk(dp, "b.root")]
+        return fs, fs
+    if fc == "same_name_two_dirs":
+        fs = [mk(d1, "a.root"), mk(d2, "a.root")]
         return fs, fs
     if fc == "missing":
         fs = [mk(d1, "a.root"), os.path.join(d1, "not_there.root")]
